@@ -74,9 +74,14 @@ def bounded_native(seed, per_country):
     n = 0
     for cc, spec in sorted(table().items()):
         cl = classes(spec["bban_spec"])
-        for _ in range(per_country):
-            b = "".join(rnd.choice({"n": "0123456789", "a": "ABCDEFGHIJKLMNOPQRSTUVWXYZ",
-                                    "c": "0123456789ABCDEFGHIJKLMNOPQRSTUVWXYZ"}[k]) for k in cl)
+        # random texts, plus the two extreme shapes: letters wherever the structure allows them (the longest numeric
+        # form: two digits per letter) and digits wherever it allows them (the shortest)
+        shapes = ["random"] * per_country + ["letters", "digits"]
+        for shape in shapes:
+            alpha = {"random": {"n": "0123456789", "a": "ABCDEFGHIJKLMNOPQRSTUVWXYZ", "c": "0123456789ABCDEFGHIJKLMNOPQRSTUVWXYZ"},
+                     "letters": {"n": "0123456789", "a": "ABCDEFGHIJKLMNOPQRSTUVWXYZ", "c": "KLMNOPQRSTUVWXYZ"},
+                     "digits": {"n": "0123456789", "a": "ABCDEFGHIJKLMNOPQRSTUVWXYZ", "c": "0123456789"}}[shape]
+            b = "".join(rnd.choice(alpha[k]) for k in cl)
             s = f"{cc}{98 - (Num(b + cc) * 100) % 97:02d}{b}"
             try:
                 IBAN(s)
